@@ -198,6 +198,15 @@ func (c *Ctx) c14Import() {
 				}
 			}
 			if rt == nil {
+				reqFailed := false
+				for _, ev := range g.events {
+					if ev.Kind == pw.EvCall && ev.Role == "Std:http.NewRequest" && len(ev.Results) == 2 && nilTri(p, ev.Results[1]) == triFalse {
+						reqFailed = true
+					}
+				}
+				if !g.open && !reqFailed {
+					r.Bad("R14.2", "HTTPTransfer.Import", "cache-skipped", c.Pos(g.begin.Pos), "an iteration over the registered caches goes on to the next cache without requesting this one from the exporter: Import must (try to) fill every registered cache", shortTrace(p))
+				}
 				continue
 			}
 			// the query is installed into the URL before the request is built from it
